@@ -140,8 +140,17 @@ pub struct Case {
 
 fn render_case(c: &Case) -> String {
     let mut s = c.data.clone();
+    // the families "definition-layout-<k>" write the definition in other (accepted) layouts: the body directly
+    // against the arrows, no blanks anywhere, blanks around the parameters, upper-case keyword
+    let layout: usize = c.family.strip_prefix("definition-layout-").and_then(|k| k.parse().ok()).unwrap_or(0);
     for d in c.defs.iter() {
-        s.push_str(&format!("macro {} ({}) -> {} <-\n", d.name, d.params.join(","), d.body));
+        match layout {
+            1 => s.push_str(&format!("macro {} ({}) ->{}<-\n", d.name, d.params.join(","), d.body)),
+            2 => s.push_str(&format!("macro {}({})->{}<-\n", d.name, d.params.join(","), d.body)),
+            3 => s.push_str(&format!("macro {} ( {} ) -> {}<-\n", d.name, d.params.join(" , "), d.body)),
+            4 => s.push_str(&format!("MACRO {} ({}) ->{} <-\n", d.name, d.params.join(", "), d.body)),
+            _ => s.push_str(&format!("macro {} ({}) -> {} <-\n", d.name, d.params.join(","), d.body)),
+        }
     }
     s.push_str(&c.code);
     s
@@ -335,6 +344,19 @@ fn family_substitution(thorough: bool) -> Vec<Case> {
 fn family_special() -> Vec<Case> {
     let mut out = Vec::new();
     let d = |n: &str, p: &[&str], b: &str| MacroDef { name: n.into(), params: p.iter().map(|s| s.to_string()).collect(), body: b.into() };
+    // definition layouts: the first and the last word of the body is a parameter / a keyword / a bracket, written
+    // directly against the arrows
+    for fam in ["definition-layout-1", "definition-layout-2", "definition-layout-3", "definition-layout-4"] {
+        let fam: &'static str = fam;
+        out.push(Case { family: fam, defs: vec![d("m", &["r"], "inc r")], data: String::new(), code: "start:\nm(ax)\nm(bx)\n".into() });
+        out.push(Case { family: fam, defs: vec![d("m", &["r", "v"], "mov r,v")], data: String::new(), code: "start:\nm(ax,5)\nm(cl, 0x12)\n".into() });
+        out.push(Case { family: fam, defs: vec![d("m", &["v", "r"], "mov r, v")], data: String::new(), code: "start:\nm(7, dx)\n".into() });
+        out.push(Case { family: fam, defs: vec![d("m", &["l"], "dec cx jnz l")], data: String::new(), code: "start:\nmov cx, 2\nagain:\nm(again)\n".into() });
+        out.push(Case { family: fam, defs: vec![d("m", &["r"], "mov al, byte [r]")], data: String::new(), code: "start:\nm(bx)\nm(si)\n".into() });
+        out.push(Case { family: fam, defs: vec![d("one", &["r"], "inc r"), d("m", &["f", "r"], "f (r) dec r f (r)")], data: String::new(), code: "start:\nm(one, ax)\n".into() });
+        out.push(Case { family: fam, defs: vec![d("one", &["r"], "inc r"), d("m", &["r"], "one(r)")], data: String::new(), code: "def p {\nm(bx)\n}\nstart:\nm(ax)\ncall p\n".into() });
+        out.push(Case { family: fam, defs: vec![d("m", &[], "cld")], data: String::new(), code: "start:\nm()\nm()\n".into() });
+    }
     // by-name passing (documented example) and a cycle closed through a name argument
     out.push(Case { family: "by-name", defs: vec![d("a", &["q"], "ADD AX,q"), d("b", &["k", "q"], "k (q)")], data: String::new(), code: "start:\nb(a,5)\n".into() });
     out.push(Case { family: "by-name-cycle", defs: vec![d("m0", &["f", "a"], "inc a f (f, a)")], data: String::new(), code: "start:\nm0(m0, ax)\n".into() });
@@ -568,6 +590,108 @@ fn late_recursion(rep: &Reporter, cnt: &Counters) -> usize {
     progs.len()
 }
 
+/// Redefinition histories: a macro may be defined again, and from then on uses (also uses from inside other
+/// macros) take the new body. Every sequence of up to `depth` events over {use outer(ax), use outer(bx), use
+/// inner(cx), inner := 3 bodies, inner := outer(r) (closes a cycle), outer := one use of inner} is written as a
+/// program and compared with the same program with the bodies that are current AT EACH USE written in place;
+/// a use that runs into the cycle must be refused. (An expansion cached by name and arguments is seen here.)
+fn redefinition_histories(rep: &Reporter, c: &Counters, depth: usize) -> (u64, u64) {
+    const INNER: [&str; 4] = ["inc r", "add r, 5", "dec r", "outer(r)"];
+    const OUTER: [&str; 2] = ["inner(r) inner(r)", "inner(r)"];
+    // events: 0,1,2 uses; 3..=6 inner := INNER[k-3]; 7 outer := OUTER[1]; 8 outer := OUTER[0]
+    let n_ev = 9usize;
+    let mut seqs: Vec<Vec<usize>> = vec![vec![]];
+    let mut all: Vec<Vec<usize>> = Vec::new();
+    for _ in 0..depth {
+        let mut next = Vec::new();
+        for s in seqs.iter() {
+            for e in 0..n_ev {
+                let mut t = s.clone();
+                t.push(e);
+                next.push(t);
+            }
+        }
+        all.extend(next.iter().cloned());
+        seqs = next;
+    }
+    // only histories with at least one use and one redefinition say something
+    let all: Vec<Vec<usize>> = all.into_iter().filter(|s| s.iter().any(|e| *e < 3) && s.iter().any(|e| *e >= 3)).collect();
+    let refused = AtomicU64::new(0);
+    all.par_iter().for_each(|seq| {
+        let (mut inner, mut outer) = (0usize, 0usize);
+        let mut with_macros = format!("macro inner (r) -> {} <-\nmacro outer (r) -> {} <-\nstart:\nmov ax, 8\n", INNER[0], OUTER[0]);
+        let mut pasted = String::from("start:\nmov ax, 8\n");
+        let mut cyclic = false;
+        for e in seq.iter() {
+            match *e {
+                0 | 1 | 2 => {
+                    let (name, arg) = [("outer", "ax"), ("outer", "bx"), ("inner", "cx")][*e];
+                    with_macros.push_str(&format!("{}({})\n", name, arg));
+                    // what the use stands for now
+                    if inner == 3 {
+                        // inner uses outer, outer uses inner: any use runs into the cycle
+                        cyclic = true;
+                    } else {
+                        // the current body of inner with the argument in place of r
+                        let one = match inner {
+                            0 => format!("inc {}", arg),
+                            1 => format!("add {}, 5", arg),
+                            _ => format!("dec {}", arg),
+                        };
+                        let times = if name == "inner" { 1 } else if outer == 0 { 2 } else { 1 };
+                        for _ in 0..times {
+                            pasted.push_str(&one);
+                            pasted.push('\n');
+                        }
+                    }
+                }
+                3..=6 => {
+                    inner = *e - 3;
+                    with_macros.push_str(&format!("macro inner (r) -> {} <-\n", INNER[inner]));
+                }
+                7 => {
+                    outer = 1;
+                    with_macros.push_str(&format!("macro outer (r) -> {} <-\n", OUTER[1]));
+                }
+                _ => {
+                    outer = 0;
+                    with_macros.push_str(&format!("macro outer (r) -> {} <-\n", OUTER[0]));
+                }
+            }
+        }
+        with_macros.push_str("hlt\n");
+        pasted.push_str("hlt\n");
+        c.add_exec(1);
+        let got = assemble(&with_macros);
+        let viol = |field: &str, expected: String, got: String| {
+            rep.report(Viol { site: "redefinition".into(), field: field.into(), vars: vec![], got_val: None, expected, got, case: json!({"src": with_macros, "pasted": pasted}), weight: with_macros.len() as u64 });
+        };
+        if cyclic {
+            refused.fetch_add(1, Ordering::Relaxed);
+            if let Ok(a) = &got {
+                viol("cycle-accepted", "refused: a use runs into inner -> outer -> inner".into(), format!("{:?}", a.code));
+            }
+            return;
+        }
+        let want = match assemble(&pasted) {
+            Ok(a) => a,
+            Err(e) => {
+                eprintln!("MACHINERY: C13 pasted program refused: {:?}\n{}", e, pasted);
+                std::process::exit(2);
+            }
+        };
+        match got {
+            Ok(a) => {
+                if a.code != want.code {
+                    viol("output", format!("{:?}", want.code), format!("{:?}", a.code));
+                }
+            }
+            Err(e) => viol("rejected", format!("same as the pasted program: {:?}", want.code), format!("{:?}", e)),
+        }
+    });
+    (all.len() as u64, refused.load(Ordering::Relaxed))
+}
+
 pub fn run(tier: &Tier) -> i32 {
     let rep_o = Reporter::new("C13", tier.name());
     let c_o = Counters::default();
@@ -593,11 +717,12 @@ pub fn run(tier: &Tier) -> i32 {
     let depths: Vec<usize> = if tier.thorough { vec![1, 2, 4, 8, 16, 32, 64, 128, 256, 512, 1024, 2048, 4096] } else { vec![1, 8, 64, 128, 256, 1024, 4096] };
     deep_chains(rep, c, &depths);
     let n_late = late_recursion(rep, c);
+    let (n_redef, n_redef_cyclic) = redefinition_histories(rep, c, if tier.thorough { 5 } else { 4 });
     c.states.fetch_add(st.0.load(Ordering::Relaxed), Ordering::Relaxed);
     let mut cov = Coverage::default();
     cov.exhaustive = true;
-    cov.rule = "differential: the program with macros must emit exactly what the real Preprocessor emits for the reference expansion (whole-word, simultaneous textual substitution, nested uses expanded) pasted in place. Families: EVERY use graph over 1, 2 and 3 macros (4 in thorough; each macro uses any subset of the macros incl. itself => all DAGs and all cyclic graphs), used from top level by each macro and from inside a procedure; parameter lists whose names are prefixes/substrings of each other, of body tokens and of the tails of numeric literals in the body x 12 body templates (register, immediate, unsigned-only immediate, direct address, memory, displacement and macro-name slots) x 21 argument kinds squared (incl. constants above 0x7FFF and DS / SS overrides on BP- and BX-based operands); macros with 9 .. 13 parameters; by-name passing incl. cycles closed through a name, also when the cycle is closed only by a LATER use of a macro that expanded harmlessly before (16 programs through the real binary); every sequence of up to 3 uses over macros with empty, blank, plain and nested-empty bodies (top level and inside a procedure); unknown and late-defined macros; chains of depth 1..64 in-process and up to 4096 through the real binary. Cyclic / unknown => diagnostic positioned at a use site; invalid expansion => rejected; deep chains => exact expansion up to depth 64, above that expansion or diagnostic but never an abort".into();
-    cov.bounds = json!({"cases": cases.len(), "reference_rejects": st.1.load(Ordering::Relaxed), "both_expand": st.2.load(Ordering::Relaxed), "chain_depths": depths, "late_recursion_programs": n_late, "tier": tier.name()});
+    cov.rule = "differential: the program with macros must emit exactly what the real Preprocessor emits for the reference expansion (whole-word, simultaneous textual substitution, nested uses expanded) pasted in place. Families: EVERY use graph over 1, 2 and 3 macros (4 in thorough; each macro uses any subset of the macros incl. itself => all DAGs and all cyclic graphs), used from top level by each macro and from inside a procedure; parameter lists whose names are prefixes/substrings of each other, of body tokens and of the tails of numeric literals in the body x 12 body templates (register, immediate, unsigned-only immediate, direct address, memory, displacement and macro-name slots) x 21 argument kinds squared (incl. constants above 0x7FFF and DS / SS overrides on BP- and BX-based operands); macros with 9 .. 13 parameters; by-name passing incl. cycles closed through a name, also when the cycle is closed only by a LATER use of a macro that expanded harmlessly before (16 programs through the real binary); every sequence of up to 3 uses over macros with empty, blank, plain and nested-empty bodies (top level and inside a procedure); unknown and late-defined macros; redefinition histories: every sequence of up to 4 (thorough 5) events over {three uses, four new bodies for the inner macro incl. one that closes a cycle, two bodies for the outer macro} compared with the bodies current at each use written in place; definitions written in four other layouts (body directly against the arrows, no blanks, blanks around the parameters, upper-case keyword); chains of depth 1..64 in-process and up to 4096 through the real binary. Cyclic / unknown => diagnostic positioned at a use site; invalid expansion => rejected; deep chains => exact expansion up to depth 64, above that expansion or diagnostic but never an abort".into();
+    cov.bounds = json!({"cases": cases.len(), "reference_rejects": st.1.load(Ordering::Relaxed), "both_expand": st.2.load(Ordering::Relaxed), "chain_depths": depths, "late_recursion_programs": n_late, "redefinition_histories": n_redef, "redefinition_histories_cyclic": n_redef_cyclic, "tier": tier.name()});
     cov.assumptions = common_assumptions();
     cov.assumptions.push("macro arguments are generated as unsigned numbers, registers, memory operands and identifiers (negative literals as arguments are not demanded)".into());
     cov.assumptions.push("acyclic chains deeper than 64 may be refused with a diagnostic (resource limit); they must never abort the process".into());
